@@ -183,6 +183,12 @@ var GposSimple = []Simple{
 			Mark2Array: [][]anchor.Table{{{X: 30, Y: 40}}},
 		}}
 	}},
+	{"GPOS3.1 cursive A,B,M", 3, func() []gtab.Subtable {
+		return []gtab.Subtable{&gtab.Gpos3_1{Cov: cov(GA, GB, GM), Records: []gtab.EntryExitRecord{
+			{Entry: anchor.Table{X: 10, Y: -20}, Exit: anchor.Table{X: 500, Y: 30}},
+			{Entry: anchor.Table{X: 5, Y: 40}, Exit: anchor.Table{X: 480, Y: -10}},
+			{Entry: anchor.Table{X: 0, Y: 0}, Exit: anchor.Table{X: -7, Y: 700}}}}}
+	}},
 	{"GPOS4.1 M on A (one mark class)", 4, func() []gtab.Subtable {
 		return []gtab.Subtable{&gtab.Gpos4_1{
 			MarkCov:   cov(GM),
